@@ -3,6 +3,7 @@
 package main
 
 import (
+	"io"
 	"fmt"
 	"runtime"
 	"strings"
@@ -171,6 +172,20 @@ func c12Stream(o *out, r *rng, thorough bool) {
 					}
 					results[i] = strings.TrimSpace(sb.String())
 				}(i)
+			}
+			// before the concurrent phase: a few clients that abort a download in the middle (the transfer
+			// fails inside the copier: its error path must leave the shared buffer pool as it found it)
+			for a := 0; a < 2+nc/2; a++ {
+				c := env.ln.dial()
+				big := "/shared/raw.bin"
+				go c.Write(append(creq{op: opOpenFile, path: big}.bytes(), creq{op: opReadFileCritical, a: 0x200000, b: 0}.bytes()...))
+				buf := make([]byte, 16+1000+a*777)
+				io.ReadFull(c, buf)
+				c.Close()
+				o.count("aborted-download")
+			}
+			for j := 0; j < 200 && len(env.rec.leaked()) > 0; j++ {
+				time.Sleep(2 * time.Millisecond)
 			}
 			close(startGate)
 			wg.Wait()
